@@ -479,6 +479,12 @@ func idForm(id, kind string) string {
 		return string(b)
 	case "braces":
 		return "{" + id + "}"
+	case "bare": // the UUID inside a urn: or braced spelling (a suffix of the stored id)
+		id = strings.TrimPrefix(id, "urn:uuid:")
+		if len(id) > 2 && id[0] == '{' && id[len(id)-1] == '}' {
+			id = id[1 : len(id)-1]
+		}
+		return id
 	}
 	return "urn:uuid:" + id
 }
